@@ -28,5 +28,6 @@ LEVEL_TEXT = ("Proof of the totality clause on the real verify_ssh_sig of RSAKey
 LEVEL_NOTE = ("Assumed raise sets (probed natively): nacl VerifyKey.verify raises BadSignatureError or ValueError; "
               "cryptography verify raises InvalidSignature; encode_dss_signature raises ValueError for negative integers; "
               "Message.get_text raises UnicodeDecodeError; other cryptography calls auto-opaque (total). Key generation, "
-              "file loading paths and sign_ssh_data are not under contract.")
+              "file loading paths and sign_ssh_data are not under contract. util.inflate_long (under Message.get_mpint, with which "
+              "_sigdecode reads r and s) is an assumed contract backed by a bounded native check only (labelled bounded).")
 TECHNIQUE = "deductive: exceptional postconditions (raises nothing) on the real AST with assumed library raise sets, z3"
